@@ -161,7 +161,8 @@ Resume1 == /\ mode = "gounw" /\ l <= Len(Trace) /\ E.ev \in RunEvents
 \* frames above the generator's base move into the saved context, re-based (sp relative to sb-1, is relative to base)
 Suspend == /\ Ev("Suspend") /\ mode = "run"
            /\ saved' = Append(saved, [t |-> [j \in 1..E.sts |-> LET fr == ts[Len(ts) - E.sts + j] IN
-                                                [fr EXCEPT !.sp = fr.sp - (E.sb - 1), !.is = fr.is - (Len(isq) - E.sis)]],
+                                                \* (E.rs: the reference stack after the suspension = the part that belongs to the caller)
+                                                [fr EXCEPT !.sp = fr.sp - (E.sb - 1), !.is = fr.is - (Len(isq) - E.sis), !.rs = fr.rs - E.rs]],
                                        i |-> SubSeq(isq, Len(isq) - E.sis + 1, Len(isq))])
            /\ ts' = SubSeq(ts, 1, Len(ts) - E.sts) /\ isq' = SubSeq(isq, 1, Len(isq) - E.sis)
            /\ UNCHANGED <<cs, ms, api, intr>> /\ Agree
@@ -171,7 +172,7 @@ Resume == /\ Ev("Resume")
           /\ \E n \in 1..Len(saved) :
                LET sv == saved[n] IN
                /\ Len(sv.t) = E.sts /\ Len(sv.i) = E.sis
-               /\ ts' = ts \o [j \in 1..Len(sv.t) |-> [sv.t[j] EXCEPT !.cs = cs, !.is = sv.t[j].is + Len(isq), !.sp = sv.t[j].sp + (E.sp - E.sst)]]
+               /\ ts' = ts \o [j \in 1..Len(sv.t) |-> [sv.t[j] EXCEPT !.cs = cs, !.is = sv.t[j].is + Len(isq), !.sp = sv.t[j].sp + (E.sp - E.sst), !.rs = sv.t[j].rs + (E.rs - E.srs)]]
                /\ isq' = isq \o sv.i
                /\ saved' = SubSeq(saved, 1, n - 1) \o SubSeq(saved, n + 1, Len(saved))
           /\ UNCHANGED <<cs, ms, api, intr>> /\ Agree
